@@ -57,6 +57,10 @@ struct Node {
     int unk = 0;
     bool crlDp = false;
     int sig = SIG_OK; int sigSrc = -1; unsigned sigBit = 0;
+    // both AlgorithmIdentifiers name the other signature family (EC signer labelled ...WithRSAEncryption, RSA signer ecdsa-with-...); the
+    // signature itself is the genuine one by signKey with `hash`.  Soundness: still a genuine signature by that key with an enabled
+    // algorithm, so the lax reference ignores the label; completeness is not asserted for such a non-conforming certificate.
+    bool mislabel = false;
     mint::Hash hash = mint::H_SHA256;
     // filled by minting (opaque to the reference)
     Bytes der, sigBytes;
@@ -282,7 +286,7 @@ static inline bool may_accept(const Case &cs)
 static inline bool node_strict(const Node &x)
 {
     // the certificate itself must be parseable: v3, supported key, supported signature algorithm (also on a trust anchor), no unknown critical extension
-    if (x.sig == SIG_ALGMISMATCH) return false;
+    if (x.sig == SIG_ALGMISMATCH || x.mislabel) return false;
     if (x.dateUnusual) return false;
     if (kkind(x.signKey) != mint::K_ED25519 && !hash_enabled(x.hash)) return false;
     return x.version == 3 && key_enabled(x.key) && date_state(x) == D_IN && x.unk != 2 && !x.serial.empty();
@@ -1192,7 +1196,7 @@ struct Gen {
         if (forcedKind == 4) { gen_history(); return cs; }
         if (forcedKind == 6) { gen_samename(); finish_opts(); return cs; }
         if (forcedKind == 5) { gen_dates(); finish_opts(); return cs; }
-        if (forcedKind == 7) { gen_anchor(); finish_opts(); cs.anchorBundle = !t.chance(1, 8); return cs; }
+        if (forcedKind == 7) { gen_anchor(); finish_opts(); cs.anchorBundle = !t.chance(1, 8); mislabel_some(); return cs; }
         unsigned k = (unsigned) t.below(100);
         int kind = forcedKind >= 0 ? forcedKind : (k < 70 ? 0 : k < 80 ? 1 : k < 92 ? 2 : k < 96 ? 3 : k < 98 ? 5 : 6);
         switch (kind)
@@ -1206,6 +1210,22 @@ struct Gen {
         }
         finish_opts();
         return cs;
+    }
+    // a certificate below the root whose algorithm identifiers name the other signature family (sometimes also signed by a wrong key)
+    void mislabel_some()
+    {
+        unsigned m = (unsigned) t.below(8);
+        if (m != 1 && m != 2) return;
+        int pos = (int) t.below((uint64_t) (mpLen() - 1));
+        Node &x = mp(pos);
+        if (x.sig != SIG_OK || kkind(x.signKey) == mint::K_ED25519) return;
+        x.mislabel = true;
+        if (m == 2)
+        {
+            int k = new_key();
+            if (kkind(k) != mint::K_ED25519 && k != x.signKey) { x.sig = SIG_WRONGKEY; x.signKey = k; note("sig-wrongkey", pos); }
+        }
+        note("sig-family-mislabel", pos);
     }
     void finish_opts()
     {
@@ -1224,6 +1244,7 @@ static inline std::string describe_node(const Node &x)
     static const char *sg[] = { "", " sig=BITFLIP", " sig=COPIED", " sig=WRONGKEY", " sig=ALGMISMATCH" };
     s += sg[x.sig];
     if (x.sig == SIG_COPIED) s += vf::fmt("(from #%d)", x.sigSrc);
+    if (x.mislabel) s += " alg-ids=OTHER-FAMILY";
     if (x.version != 3) s += " v1";
     DateState d = date_state(x);
     if (d != D_IN) s += vf::fmt(" date=%s(nb%+lldd,na%+lldd)", d == D_OUT ? "OUT" : "GREY", (long long) (x.nb / DAY), (long long) (x.na / DAY));
